@@ -12,7 +12,7 @@ Extraction "model.ml"
   dist_run dist_ok preg_run
   f_of_bits f_to_bits f_add f_sub f_mul f_div f_max f_floor f_ceil f_round f_trunc f_to_int f_of_Z f_lt f_le f_eq
   staged_run staged_ok ramp_run_f64 ramp_ok interp_ok
-  jit_run_f64 jit_ok
+  jit_run_f64 jit_ok composed_bound_ok
   stats_run stats0 c01_ok exec init terminal
   worker_obs run_obs combine_obs measured_ok cleanups_once_ok
   gather_obs
